@@ -58,7 +58,7 @@ def units(tier):
         for al in range(2, amax + 1):
             add(f"attr_{k}_a{al}", [k], alen=al)
     for f in ["i", "a", "f", "ia", "if", "af", "iaf", "aa", "iaaf"]:
-        for pc in (["n"], ["e"], ["u2", "n"], ["n", "e"]):
+        for pc in (["n"], ["e"], ["u2", "n"], ["n", "e"], ["e", "n", "n"], ["e", "e"]):
             add(f"sub_{f}_{''.join(pc)}", ["sub_" + f], pieces=pc)
     for f in ["a", "adn", "ar", "ardn", "r", "rdn"]:
         for dn in (["dn"] if "dn" not in f else ["dn", "DN", "Dn", "dN"]):
